@@ -4,3 +4,7 @@ import AriesVerif.C05.Props
 #print axioms Kms.C05_history_opaque
 #print axioms Kms.C05_lock
 #print axioms Kms.C05_wrong_master
+#print axioms Kms.C05_envelope_opaque
+#print axioms Kms.C05_envelope_history_opaque
+#print axioms Kms.C05_noop_envelope_not_opaque
+#print axioms Kms.C05_foreign_dek_not_opaque
